@@ -13,16 +13,25 @@ def nontrivial_key(cfg, out):
 def run_cases(res, binary, cases, want, extra=None, nontrivial=None, max_fail=12, timeout=180, log_bytes=0):
     """cases: list of (scenario, config).  extra(local_result, sc, cfg, sr, hev, wire, out) adds property-specific
     oracles / acceptors."""
+    stop = {"fails": 0}
+
     def one(case):
         sc, cfg = case
+        if stop["fails"] >= max_fail:      # enough failing inputs: do not spend minutes on further (possibly hanging) cases
+            return sc, cfg, C.Result(), {"verdict": "skipped"}
         sr = T.run(binary, sc, cfg, timeout=timeout, log_bytes=log_bytes)
         local = C.Result()
         out, hev, wire = T.analyze(local, sc, cfg, sr, want)
         if extra and sr.verdict == "ok":
             extra(local, sc, cfg, sr, hev, wire, out)
+        if local.oracle_failures:
+            stop["fails"] += 1
         return sc, cfg, local, out
 
     for sc, cfg, local, out in C.pmap(one, cases):
+        if out.get("verdict") == "skipped":
+            res.count("skipped-after-enough-failures")
+            continue
         res.evaluations += 1
         res.traces_validated += 1 if out.get("verdict") == "ok" else 0
         res.count("verdict:" + out.get("verdict", "?").split(":")[0])
